@@ -57,6 +57,10 @@ type layout struct {
 	SOMTag string      `json:"som_tag,omitempty"`
 	SOM    int         `json:"som,omitempty"`
 	Fields []fieldSpec `json:"fields"`
+	// Shadow: fields are numbered separately inside and outside the embedded struct, so an embedded
+	// field can have the same Go name as a field of the enclosing struct (legal Go; the outer one
+	// shadows the promoted one for selectors, which must not matter to a codec that walks the layout)
+	Shadow bool `json:"shadow,omitempty"`
 }
 
 type options struct {
@@ -128,6 +132,13 @@ func build(l layout) program {
 	innerAt := -1
 	for i, f := range l.Fields {
 		sf := reflect.StructField{Name: fmt.Sprintf("F%d", i), Type: goTypes[f.Kind], Tag: fieldTag(f)}
+		if l.Shadow {
+			if f.Embedded {
+				sf.Name = fmt.Sprintf("F%d", len(inner))
+			} else {
+				sf.Name = fmt.Sprintf("F%d", i-len(inner))
+			}
+		}
 		if f.Embedded {
 			if innerAt < 0 {
 				innerAt = len(top)
@@ -676,6 +687,9 @@ func attribute(l layout, vals []spec.KV, o options, x failure) []string {
 				return keys
 			}
 		}
+		if l.Shadow {
+			return []string{"C18/" + x.Op + "/embedded-field-shadowed-by-name/" + x.Class}
+		}
 		return []string{"C18/" + x.Op + "/multi-field/" + x.Class}
 	}
 	f := l.Fields[0]
@@ -863,7 +877,7 @@ func main() {
 
 	var cases, distinct atomic.Int64
 	perFamily := map[string]*atomic.Int64{}
-	for _, f := range []string{"single-field", "two-field", "three-field", "function-code-tags", "fixed-value-tags", "som-tags"} {
+	for _, f := range []string{"single-field", "two-field", "two-field-shadowed-name", "three-field", "function-code-tags", "fixed-value-tags", "som-tags"} {
 		perFamily[f] = &atomic.Int64{}
 	}
 	var jobs []job
@@ -978,6 +992,11 @@ func main() {
 						tag, fn := fnFor(off+second, ai*31+bi)
 						l := layout{FnTag: tag, Fn: fn, Fields: []fieldSpec{a.at(off, e[0]), b.at(second, e[1])}}
 						add("two-field", l, tuples, options{Reject: true})
+						if e[0] != e[1] && second == off+wa {
+							// one field inside, one outside the embedded struct, both named F0
+							l.Shadow = true
+							add("two-field-shadowed-name", l, tuples[:1], options{Reject: true})
+						}
 					}
 				}
 			}
@@ -1156,7 +1175,7 @@ func parent(r *vk.Run) {
 		r.Finish()
 	}
 	coll.flush(r)
-	for _, f := range []string{"single-field", "two-field", "three-field", "function-code-tags", "fixed-value-tags", "som-tags"} {
+	for _, f := range []string{"single-field", "two-field", "two-field-shadowed-name", "three-field", "function-code-tags", "fixed-value-tags", "som-tags"} {
 		r.Set("cases_"+f, perFamily[f])
 		if v, ok := samples[f]; ok {
 			r.Sample(v)
@@ -1171,7 +1190,7 @@ func parent(r *vk.Run) {
 	if r.Thorough() {
 		third = "every ordered triple of the 21 kind variants, adjacent, at offsets 2, 30 and end-aligned x 4 embedding patterns (none, middle, outer two, all) x (baseline tuple + each field over its small alphabet)"
 	}
-	r.Rule("struct types generated with reflect.StructOf: (1) every single-field layout = 20 kinds (17 + pointer variants of Date, DateTime, HHmm; the fixed-value byte in 10 tag spellings) x every offset 2..63 at which the kind fits x plain/embedded x the kind's value alphabet (boundaries, walking bits, byte-distinct patterns, all 256 bytes; every HH:mm 00:00..24:00 and every IPv4 octet value at the first and last offset in the quick tier, at every offset plain and embedded in the thorough tier); (2) every two-field layout = every ordered pair of 21 kind variants (19 kinds + fixed byte written in decimal and in hex) x every offset of the first field x second field adjacent and right-aligned to byte 63 x 4 embedding patterns (none, second, first, both) x the cross product of the two small alphabets; (3) three-field layouts: " + third + "; (4) every function code 0..255 x every decimal/0x/0X/upper-case spelling x all 255 wrong codes on decode; (5) every fixed value 0..255 x every spelling at offsets 2, 33, 63 plain and embedded x all 255 wrong bytes, plus five values in every spelling at every other offset; (6) SOM tags 0x17/0x19 in every spelling (emission). A case is one (layout, value tuple); cases are pairwise distinct by construction (alphabets are duplicate-free, coinciding adjacent/right-aligned placements are generated once, fixed-value layouts of (5) that repeat a tag spelling of (1) are not counted); non-trivial = the reference message has at least one non-zero byte after the function code")
+	r.Rule("struct types generated with reflect.StructOf: (1) every single-field layout = 20 kinds (17 + pointer variants of Date, DateTime, HHmm; the fixed-value byte in 10 tag spellings) x every offset 2..63 at which the kind fits x plain/embedded x the kind's value alphabet (boundaries, walking bits, byte-distinct patterns, all 256 bytes; every HH:mm 00:00..24:00 and every IPv4 octet value at the first and last offset in the quick tier, at every offset plain and embedded in the thorough tier); (2) every two-field layout = every ordered pair of 21 kind variants (19 kinds + fixed byte written in decimal and in hex) x every offset of the first field x second field adjacent and right-aligned to byte 63 x 4 embedding patterns (none, second, first, both) x the cross product of the two small alphabets, plus every adjacent mixed (one embedded, one not) layout again with both fields carrying the same Go name, baseline tuple; (3) three-field layouts: " + third + "; (4) every function code 0..255 x every decimal/0x/0X/upper-case spelling x all 255 wrong codes on decode; (5) every fixed value 0..255 x every spelling at offsets 2, 33, 63 plain and embedded x all 255 wrong bytes, plus five values in every spelling at every other offset; (6) SOM tags 0x17/0x19 in every spelling (emission). A case is one (layout, value tuple); cases are pairwise distinct by construction (alphabets are duplicate-free, coinciding adjacent/right-aligned placements are generated once, fixed-value layouts of (5) that repeat a tag spelling of (1) are not counted); non-trivial = the reference message has at least one non-zero byte after the function code")
 	r.Assume("reference encoders spec.KindEncode are written by hand from the protocol; reflect.StructOf types behave like declared struct types for the codec (same reflect API)")
 	r.Assume("time.Local = UTC (zone behaviour of dates belongs to C13/C05)")
 	r.Assume("function codes and tag spellings of the field layouts are assigned by a fixed arithmetic rule over (offset, kind); their full product is enumerated in family (4)")
